@@ -24,8 +24,9 @@ def run_property(prop: str, tier: str, prog: Program = None, write=True, quiet=F
             prog = Program()
         mod = importlib.import_module(f"sa.rules.{prop.lower()}")
         mod.run(prog, rep)
-        if tier == "thorough" and hasattr(mod, "thorough"):
-            mod.thorough(prog, rep)
+        if tier == "thorough":
+            from . import thorough
+            thorough.run(prop, prog, rep)
     except AnalysisError as e:
         rep.error(str(e))
     except Exception as e:  # a traceback must never look like a violation
